@@ -125,6 +125,45 @@ def model_mismatches(rows):
              "what": "the queue calls an API method made, or whether it returned the queue's error, differ from the Coq model (api_run)"} for i in ids], out
 
 
+def slow_oracle(r):
+    cfg = "%s inside a slow queue.%s (400 ms), then %s" % (r["api"], r["slow_queue_method"], {"stop": "Stop()", "cancel": "cancellation of the Start context",
+                                                                                       "stopstart": "Stop(); Start()", "isstarted": "IsStarted()"}[r["action"]])
+    if r.get("error"):
+        return ["slow-API scenario could not be driven (%s): %s" % (cfg, r["error"])]
+    why = []
+    if r.get("calls_not_returned_within_5s"):
+        return ["%s: %s did not return within 5 s (deadlock between the API call and the lifecycle call)" % (cfg, ", ".join(r["calls_not_returned_within_5s"]))]
+    if not r["started_at_end"] or r["probe_execs"] != 1:
+        why.append("%s: after a following Start the scheduler reports IsStarted=%s and a job due at once was executed %d times within 5 s" % (cfg, r["started_at_end"], r["probe_execs"]))
+    if not r["wait_returned"]:
+        why.append("%s: Wait did not return after the final Stop" % cfg)
+    return why
+
+
+def run_slow(binp):
+    rc, rows, out = lc.run_json([binp, "slowapi"], timeout=300)
+    if rc != 0:
+        if "panic:" in out or "fatal error:" in out:
+            m = out[out.find("panic:") if "panic:" in out else out.find("fatal error:"):]
+            return [{"kind": "slowapi", "api": "ScheduleJob", "slow_queue_method": "Push", "action": "stop", "error": "the harness process died: " + m[:500]}]
+        raise RuntimeError("looph slowapi failed: " + out[-2000:])
+    return [r for r in rows if r.get("kind") == "slowapi"]
+
+
+def slow_failures(binp):
+    rows = run_slow(binp)
+    bad = [r for r in rows if slow_oracle(r)]
+    out = []
+    if bad:
+        again = {(r["api"], r["action"]) for r in run_slow(binp) if slow_oracle(r)}
+        for r in [x for x in bad if (x["api"], x["action"]) in again][:2]:
+            out.append({"case": {"kind": "slowapi", "api": r["api"], "slow_queue_method": r["slow_queue_method"], "action": r["action"]}, "why": slow_oracle(r),
+                        "failing_combinations_in_this_run": len(bad),
+                        "how": "looph slowapi: custom queue whose Push / Remove / Clear takes 400 ms and signals entry; the API call runs in a goroutine, the "
+                               "lifecycle call is issued 20 ms after the queue operation was entered; every call under a 5 s watchdog; then Start, a job due at once"})
+    return rows, out
+
+
 def run_faults(binp, seed, tier, only=None):
     cmd = [binp, "faults", str(seed), tier] + ([str(only)] if only is not None else [])
     rc, rows, out = lc.run_json(cmd, timeout=1500)
@@ -159,6 +198,8 @@ def run(ctx):
             failures.append({"case": {"id": r["id"], "plan": r["plan"], "seed": ctx.seed, "tier": ctx.tier}, "why": why,
                              "the_planned_queue_calls_fail_with": injected(r["plan"]), "failing_plans_in_this_run": len([x for x in rows if oracle(x)]),
                              "how": "looph faults: fixed API scenario on a scheduler whose JobQueue fails/delays the planned calls"})
+    slow_rows, sf = slow_failures(binp)
+    failures += sf
     if lc.model_available() and rows:
         bad, mout = model_mismatches(rows)
         if bad is None:
@@ -184,12 +225,14 @@ def run(ctx):
     cov = vlib.proof_coverage(res, PROJ, "C15")
     cov.update({
         "evaluations": len(rows), "faults_fired": sum(r["faults_fired"] for r in rows), "loop_queue_calls": sum(r["loop_calls"] for r in rows),
-        "api_calls": sum(len(r["apis"]) for r in rows),
+        "api_calls": sum(len(r["apis"]) for r in rows), "lifecycle_call_during_slow_api_trials": len(slow_rows),
         "distinct_nontrivial": len({json.dumps(r["plan"], sort_keys=True) for r in rows if r["faults_fired"] > 0 or r["plan"]["fault"] == "delay" or r["plan"]["kind"] == "slow"}),
         "rule": "single fail / delay at call index i of each of Size, Head, Pop, Push, Get, Remove, ScheduledJobs, Clear over a fixed scenario of 18 API "
                 "calls on 6 jobs; bursts of 2/10/50 consecutive failures of Size/Head/Pop; random mixes 5/20/50 %; uniformly slow queue; error kinds "
                 "{plain, wraps context.DeadlineExceeded, wraps context.Canceled, wraps ErrQueueEmpty (not on Head/Pop), wraps ErrJobNotFound (not on "
-                "Get/Remove)} as quiet bursts of 1-2 on Size/Head/Pop, single faults on every method, random mixes; "
+                "Get/Remove)} as quiet bursts of 1-2 on Size/Head/Pop, single faults on every method, random mixes; long outages (200-300 consecutive "
+                "failures of Size/Head/Pop with RetryInterval 1-2 ms; 1000-1500 in the thorough tier); Stop / cancel / Stop+Start / IsStarted issued while "
+                "ScheduleJob / DeleteJob / PauseJob / Clear is inside a slow queue operation; "
                 "non-trivial = at least one fault actually fired",
         "samples": [{"plan": r["plan"], "faults_fired": r["faults_fired"], "max_failing_calls_per_window": r["max_failing_calls_per_window"]} for r in rows[1:4]],
         "exhaustive": False, "model_mismatches": len(mismatches), "oracle_failures": len(failures),
@@ -208,6 +251,13 @@ def replay(ctx, path):
     obj = json.load(open(path))
     c = obj.get("case", {})
     binp = lc.looph()
+    if c.get("kind") == "slowapi":
+        bad = [r for r in run_slow(binp) if (r["api"], r["action"]) == (c["api"], c["action"]) and slow_oracle(r)]
+        print(json.dumps(bad))
+        if bad:
+            vlib.report_violation(ctx, {"case": c, "why": slow_oracle(bad[0])})
+            return 1
+        return 0
     rc, rows, out = run_faults(binp, c.get("seed", ctx.seed), c.get("tier", "quick"), only=c.get("id", c.get("plan_index")))
     if rc != 0:
         vlib.report_violation(ctx, {"case": c, "why": ["the scheduler process died: " + out[-600:]]})
